@@ -81,6 +81,7 @@ func init() {
 		partStepPairs(c, a, [][2]string{{"leave", "join2"}, {"join", "leave2"}, {"switch", "join2"}})
 		partRealBinaryDefaults(c, a, "C11")
 		partLagSenders(c, a)
+		partSwitchPending(c, a)
 		return a.finish(c)
 	}
 }
